@@ -100,6 +100,9 @@ class SimPoolBase:
     kind = "thread"
 
     def __init__(self, max_workers=None, *a, **k):
+        if max_workers is not None and max_workers <= 0:
+            # concurrent.futures raises exactly this
+            raise ValueError("max_workers must be greater than 0")
         sim = simsched.SIM
         self.sim = sim
         self.futures = []
